@@ -335,7 +335,20 @@ func (s *c05tScenario) body(c *mc.Ctx) {
 	defer clk.install()()
 	names, at := s.instants()
 	k := c.ChooseFree("clock", len(at))
-	clk.now = zoned(at[k], c.ChooseFree("zone", 3))
+	chosen := zoned(at[k], c.ChooseFree("zone", 3))
+	// either the clock stands at the chosen instant from the start, or the check starts long before and the clock reaches the chosen
+	// instant while the library waits for the first distribution point (a slow server): what counts is the instant at which a list
+	// is handed over
+	movesDuringTheCall := c.ChooseFree("clock-reaches-the-instant-while-waiting-for-the-first-point", 2) == 1
+	clk.now = chosen
+	if movesDuringTheCall && chosen.After(clkT0.Add(-3*time.Hour)) {
+		clk.now = clkT0.Add(-3 * time.Hour)
+	}
+	arrive := func() {
+		if chosen.After(clk.now) {
+			clk.now = chosen
+		}
+	}
 	c.Cover("clock:" + names[k])
 	parse := func(der []byte) *x509.RevocationList {
 		if der == nil {
@@ -354,6 +367,7 @@ func (s *c05tScenario) body(c *mc.Ctx) {
 		fetcher = netsim.FetcherFunc(func(ctx context.Context, u string) (*corecrl.Bundle, error) {
 			for i := 0; i < s.points; i++ {
 				if u == c05tURL(i) {
+					arrive()
 					delivered[i] = clk.now
 					return &corecrl.Bundle{BaseCRL: parse(w.base[i]), DeltaCRL: parse(w.delta[i])}, nil
 				}
@@ -364,6 +378,7 @@ func (s *c05tScenario) body(c *mc.Ctx) {
 		tr.Handler = func(r *netsim.Request, raw *http.Request) netsim.Answer {
 			for i := 0; i < s.points; i++ {
 				if r.URL == c05tURL(i) {
+					arrive()
 					delivered[i] = clk.now
 					return netsim.Answer{Status: 200, Body: w.base[i]}
 				}
